@@ -190,6 +190,8 @@ def reset_world(loop=None, *, drift: float = 0.0, seed: int = 0) -> None:
     T.MIN_INTER_WRITE_GAP = _ORIG_MIN_GAP
     T._DBG_DISABLE_DUTY_CYCLE_LIMIT = _ORIG_DBG_DUTY
     T.mqtt.Client = _ORIG_MQTT_CLIENT
+    T.is_hgi80 = lambda name: False  # the port type probe; engines override per run
+    T.serial_for_url = _ORIG_SERIAL_FOR_URL
     if _ORIG_MAX_CYCLE is not None:
         EB._Discovery.MAX_CYCLE_SECS = _ORIG_MAX_CYCLE
 
